@@ -4,7 +4,7 @@
    the process-global registry and every statement below marked [+] was false — witnesses now live in corpus/C15/).
    `acc r f` (does reader r's isMine accept / reject / raise on file f) is universally quantified: the theorems
    hold for every accept relation, every registry, every history (induction over the history). *)
-From PNC Require Import Base.Util Model.Registry Proofs.RegistryProofs.
+From PNC Require Import Base.Util Model.Registry Gen.RegistrySrc Proofs.RegistryProofs.
 
 (* [+] An open (auto-detected or named) never changes the registry ... *)
 Theorem C15_getreader_pure : forall acc reg s, fst (impl_step acc reg s) = reg.
@@ -71,6 +71,71 @@ Theorem C15_auto_equals_named_refuted : exists acc reg n r f noext r',
 Proof. exact auto_equals_named_refuted. Qed.
 Print Assumptions C15_auto_equals_named_refuted.
 
+(* ---- tie T: Gen/RegistrySrc.v src_getreader is re-read from _getreader.py on every run (alias or private copy, the
+   position of the suffix preference, dict(_readers), getreaderdict()[format], registerreader's guard and position).
+   The step and the registration the SOURCE describes are the model's: an edit of any of those decisions changes the
+   left-hand side and these two statements stop checking. *)
+Theorem C15_source_is_model : forall acc reg s, generic_step src_getreader acc reg s = impl_step acc reg s.
+Proof. exact source_is_model. Qed.
+Print Assumptions C15_source_is_model.
+
+Theorem C15_source_register_is_model : forall reg n r, generic_register src_getreader reg n r = impl_register reg n r.
+Proof. exact source_register_is_model. Qed.
+Print Assumptions C15_source_register_is_model.
+
+(* ---- "first reader whose isMine() accepts wins", as a relation, for every list: the loop returns reader r exactly when
+   some pair carrying r is preceded only by rejecting readers and r accepts; it lets exception e escape exactly when the
+   first non-rejecting reader raises e. *)
+Theorem C15_first_accepting_selected : forall (a : reader -> outcome) r l,
+  first_accepting a l = Selected r <->
+  exists pre k post, l = pre ++ (k, r) :: post /\ (forall kr, In kr pre -> a (snd kr) = No) /\ a r = Yes.
+Proof. exact first_accepting_selected. Qed.
+Print Assumptions C15_first_accepting_selected.
+
+Theorem C15_first_accepting_raised : forall (a : reader -> outcome) e l,
+  first_accepting a l = Raised e <->
+  exists pre k r post, l = pre ++ (k, r) :: post /\ (forall kr, In kr pre -> a (snd kr) = No) /\ a r = Raise e.
+Proof. exact first_accepting_raised. Qed.
+Print Assumptions C15_first_accepting_raised.
+
+(* second clause, EXACT (replaces the search for a larger sufficient domain): after any history, auto-detection under
+   suffix e selects the reader registered under format name n if and only if that reader is the first claimant of
+   (suffix preference :: registry).  With the measured accept matrix this says for which shipped formats the clause can
+   hold: see the overlap table in harness/props/c15.py OVERLAPS. *)
+Theorem C15_auto_is_named_iff : forall acc reg h e n f r,
+  lookup_last n reg = Some r ->
+  (snd (impl_step acc (impl_final acc reg h) (Auto e f)) = snd (impl_step acc (impl_final acc reg h) (Named n f))
+   <-> exists pre k post, prefer reg e = pre ++ (k, r) :: post
+                          /\ (forall kr, In kr pre -> acc (snd kr) f = No) /\ acc r f = Yes).
+Proof. exact auto_is_named_iff. Qed.
+Print Assumptions C15_auto_is_named_iff.
+
+(* ---- registration ("the set of registered readers"; class creation registers readers) ------------------------
+   registerreader never changes what an already registered name means, a new name gets the new reader, names stay
+   distinct (so dict(_readers) loses nothing: first and last lookup agree), registering twice is registering once. *)
+Theorem C15_register_keeps_known_names : forall reg n r m,
+  lookup_last m reg <> None \/ m <> n -> lookup_last m (impl_register reg n r) = lookup_last m reg.
+Proof. exact register_keeps_lookup. Qed.
+Print Assumptions C15_register_keeps_known_names.
+
+Theorem C15_register_new_name : forall reg n r, known n reg = false -> lookup_last n (impl_register reg n r) = Some r.
+Proof. exact register_new_name. Qed.
+Print Assumptions C15_register_new_name.
+
+Theorem C15_register_names_distinct : forall reg s l c,
+  nodup_names reg = true -> nodup_names (impl_class_created reg s l c) = true.
+Proof. exact class_created_nodup. Qed.
+Print Assumptions C15_register_names_distinct.
+
+Theorem C15_distinct_names_dict_is_list : forall reg n,
+  nodup_names reg = true -> lookup_last n reg = lookup_first n reg.
+Proof. exact nodup_lookup_first_last. Qed.
+Print Assumptions C15_distinct_names_dict_is_list.
+
+Theorem C15_register_idempotent : forall reg n r r', impl_register (impl_register reg n r) n r' = impl_register reg n r.
+Proof. exact register_idempotent. Qed.
+Print Assumptions C15_register_idempotent.
+
 (* Non-vacuity: a history with telling-extension opens followed by extension-less probes of files that several
    readers claim (the pattern that used to fail) on the witness registry *)
 Example C15_history_inhabited :
@@ -83,3 +148,10 @@ Example C15_sole_claimant_inhabited :
   sole_claimant (acc_of [(2, [(4, Yes)])]) [(0, 0); (5, 4); (3, 2)] 4 2 = true
   /\ lookup_last 5 [(0, 0); (5, 4); (3, 2)] = Some 4.
 Proof. vm_compute. split; reflexivity. Qed.
+
+Example C15_registration_inhabited :
+  impl_class_created (impl_class_created [(4, 3)] 2 12 2) 3 13 2 = [(13, 2); (3, 2); (12, 2); (2, 2); (4, 3)]
+  /\ impl_class_created [(13, 2); (3, 2); (12, 2); (2, 2); (4, 3)] 3 14 7 = [(14, 7); (13, 2); (3, 2); (12, 2); (2, 2); (4, 3)]
+  /\ nodup_names w_reg = true
+  /\ generic_step (GSrc false 0 true true 0 true) w_acc w_reg (Auto 3 1) <> impl_step w_acc w_reg (Auto 3 1).
+Proof. vm_compute. repeat split; try reflexivity. discriminate. Qed.
